@@ -86,7 +86,7 @@ type exMeta struct {
 var rec = ev.New("c03/ip-client", "rapid state machine on one real IPClient (interleaved mode on/off) against the harness's protocol-conformant NTP server model on loopback (real sockets, kernel timestamps): actions exchange(per-request fault in {none, drop request, drop response, duplicate reply, stale reply first, reply from another address first, delayed reply}), switch server, idle > 3 s (rare); the model's clock offset changes by >= 2 s (up to +-20 years) on every request. Oracle per successful call: the offset lies in the envelope [(r+s)/2 - B, (r+s)/2 - A] + theta_j of exactly the exchange j it must describe (current one for a basic reply, the cited previous one for an interleaved reply; A,B call instants, r,s model read/write instants), equals the client's logged offset, and |off - theta_j| <= rtd/2 + 4 ns when kernel timestamps were used; interleaved state agrees with the model; timestamp within the call; fault-free calls succeed. One evaluation = one client call. Non-trivial: sequence with an accepted interleaved reply or an accepted reply after a faulty exchange; distinct by action-log hash")
 
 func TestPropIPClient(t *testing.T) {
-	vt.Check(t, 120, 1200, func(t *rapid.T) {
+	vt.Check(t, 220, 1500, func(t *rapid.T) {
 		capt := &netlab.Capture{}
 		c := &client.IPClient{Log: capt.Logger(), InterleavedMode: rapid.IntRange(0, 3).Draw(t, "interleaved") > 0}
 		srvA.Forget()
@@ -95,22 +95,20 @@ func TestPropIPClient(t *testing.T) {
 		srvB.ClearPlans()
 		srvA.Take()
 		srvB.Take()
+		depth := rapid.SampledFrom([]int{1, 1, 2, 0}).Draw(t, "server-memory-depth")
+		srvA.SetDepth(depth)
+		srvB.SetDepth(depth)
 		cur, curAddr := srvA, addrA
 		meta := map[*netlab.Exchange]*exMeta{}
 		var log []string
 		labels := map[string]int{}
 		ncalls := 0
 		faultSeen := false
+		var lastGenuine []byte
 
 		call := func(t *rapid.T, faults []string) {
 			var plans []netlab.Plan
-			var stale []byte
-			for ex := range meta {
-				if ex.Genuine != nil && ex.From.Addr() == netlab.Addr(1) {
-					stale = ex.Genuine
-					break
-				}
-			}
+			stale := lastGenuine // the most recent reply the model built (delivered or not): a delayed datagram
 			for _, f := range faults {
 				p := netlab.Plan{Theta: nextTheta(t)}
 				switch f {
@@ -136,6 +134,8 @@ func TestPropIPClient(t *testing.T) {
 					}
 				case "delayed":
 					p.Delay = time.Duration(rapid.Int64Range(1, 20).Draw(t, "delay-ms")) * time.Millisecond
+				case "force-basic":
+					p.ForceBasic = true
 				}
 				plans = append(plans, p)
 			}
@@ -170,7 +170,10 @@ func TestPropIPClient(t *testing.T) {
 					f = faults[i]
 				}
 				meta[ex] = &exMeta{call: ci, fault: f}
-				if f != "none" && f != "delayed" {
+				if ex.Genuine != nil {
+					lastGenuine = ex.Genuine
+				}
+				if f != "none" && f != "delayed" && f != "force-basic" {
 					clean = false
 				}
 			}
@@ -274,7 +277,7 @@ func TestPropIPClient(t *testing.T) {
 				fs := rapid.SliceOfN(faultGen, 3, 3).Draw(t, "faults")
 				call(t, fs)
 				for _, f := range fs {
-					if f != "none" && f != "delayed" {
+					if f != "none" && f != "delayed" && f != "force-basic" {
 						faultSeen = true
 					}
 				}
